@@ -16,11 +16,16 @@ RULE = (
     "options (model-based interpreter; the op list is the replay file). Oracle: "
     "tree.contract == dense reference (fixed-index section under projection), "
     "exact; originals kept across copy / inplace=False are re-checked at the "
-    "end. Non-trivial = >=2 structure/slicing-changing ops succeeded and an "
-    "observation or contract/query precedes the last op. Distinct = sha1(spec)."
+    "end. A third of the histories are short chains of 2-3 "
+    "transformations with no observation in between (optionally after a warming "
+    "contract/query); the initial tree comes from my path (linear/SSA), a real "
+    "finder or an auto-completed prefix, with any incremental tracker switched on. "
+    "Non-trivial = >=2 structure/slicing-changing ops succeeded (class tags say "
+    "whether anything observed the tree before the last op). Distinct = sha1(spec)."
 )
 ASSUMPTIONS = [
-    "parallel=False inside the machine (no pools)",
+    "forest / tempering drivers run serially or on harness-owned in-process pools that "
+    "emulate the process-pool (pickle boundary) and scatter-pool (futures) protocols; no real processes",
     "a transformation that raises is counted (classes raised:*), the tree is "
     "restored from a pre-op copy and the history continues: the property "
     "speaks about the state after transformations that complete",
